@@ -190,6 +190,10 @@ class Interp:
                     iv = self.resolve(st, self._read(st, (("L", e["index"]),)))
                     if iv not in self.index_vals:
                         self.index_vals.append(iv)
+                    # a built-in index projection (slices, arrays): logged like the Index/IndexMut call a Vec would need
+                    ev = ("index", getattr(st, "bb", None), path, iv)
+                    if not st.trace or st.trace[-1] != ev:
+                        st.trace = st.trace + (ev,)
                     path = path + (("f", "[#%d]" % self.index_vals.index(iv)),)
                 elif "constidx" in e:
                     path = path + (("f", "[%d]" % e["constidx"]),)
@@ -1111,6 +1115,27 @@ def m_identity(interp, st, t, args, bb):
     return [(st, args[0])]
 
 
+def m_transpose(interp, st, t, args, bb):
+    """Option<Result<T, E>>::transpose -> Result<Option<T>, E> on known variants"""
+    v = args[0]
+    O, R = "core::option::Option", "core::result::Result"
+    if v[0] == "var" and v[1] == O:
+        if v[2] == "None":
+            return [(st, VAR(R, "Ok", (VAR(O, "None", ()),)))]
+        inner = v[3][0] if v[3] else None
+        if inner and inner[0] == "var" and inner[1] == R:
+            if inner[2] == "Ok":
+                return [(st, VAR(R, "Ok", (VAR(O, "Some", inner[3]),)))]
+            return [(st, VAR(R, "Err", inner[3]))]
+        if inner is not None:
+            # Some(result of a fallible call): both outcomes, named like the `?` operator names them
+            _note_src(interp, "tryok:%d" % bb, inner)
+            s1, s2 = st.fork(), st.fork()
+            return [(s1, VAR(R, "Ok", (VAR(O, "Some", (SYM("tryok:%d" % bb),)),))),
+                    (s2, VAR(R, "Err", (SYM("tryerr:%d" % bb),)))]
+    return None
+
+
 def m_deref(interp, st, t, args, bb):
     # Deref/DerefMut/Index/IndexMut/as_slice on containers: the result aliases the container's content
     # (never its length/emptiness facts)
@@ -1275,6 +1300,7 @@ DEFAULT_MODELS = {
     "*::FromResidual>::from_residual": m_from_residual,
     "*::FromResidual<core::result::Result>>::from_residual": m_from_residual,
     "core::ops::try_trait::FromResidual::from_residual": m_from_residual,
+    "core::option::Option::transpose": m_transpose,
     "*::IntoIterator>::into_iter": m_identity,
     "core::iter::traits::collect::IntoIterator::into_iter": m_identity,
     "*::Deref>::deref": m_deref,
